@@ -68,6 +68,7 @@ let parse_uop (t : string list) : uop =
   | ["tcp_close"; s] -> UTcpClose (zi s)
   | ["tcp_cancel"; s] -> UTcpCancel (zi s)
   | ["tcp_destroy"; s] -> UTcpDestroy (zi s)
+  | ["tcp_move"; s] -> UTcpMove (zi s)
   | ["tcp_connect"; s; f; a; p; h] -> UTcpConnect (zi s, mk_ep f a p, zi h)
   | ["tcp_write"; s; h] -> UTcpWrite (zi s, pairs_bufs tl, zi h)
   | ["tcp_read"; s; h] -> UTcpRead (zi s, List.map zi tl, zi h)
